@@ -141,10 +141,7 @@ pub fn gen_pool_docs(rng: &mut Rng, sch: &Sch, pool: &mut Vec<MDoc>, profiles: &
             let at = rng.usize_below(d.vals.len() + 1);
             d.vals.insert(at, (sch.slot("u_so"), MV::U64(id)));
         }
-        rep.observe("doc_profile", d.profile);
-        for (_, v) in &d.vals {
-            rep.observe("value_kind", v.kind_name());
-        }
+        observe_kinds(rep, &d);
         ix.push(pool.len());
         pool.push(d);
     }
